@@ -1,1 +1,12 @@
-//! Hooks for property C25 (empty unless needed).
+//! Hooks for property C25: observation of the end of a direct-address update task.
+
+/// Held by the spawned update task; its drop is the last thing the task does before the captured
+/// net-report guard is released (both happen inside the task's final poll).
+#[derive(Debug)]
+pub struct TaskEnd;
+
+impl Drop for TaskEnd {
+    fn drop(&mut self) {
+        iroh_base::verif::event("direct_addr.run.task_end", String::new);
+    }
+}
